@@ -387,4 +387,82 @@ example :
     rowState (sqlLatest rows lo 0) = .active ∧ rowState (sqlLatest rows up 0) = .deactivated ∧
     rowState (sqlLatest rows other 0) = .absent ∧ (sqlLatest rows up 0).map (·.version) = some 1 := by decide
 
+/-! ### deepening round: the stateful HTTP response cache did:web resolution goes through (http/client/caching.go) -/
+
+/-- the control flow of get / insert / removeExpiredEntries / pop / RoundTrip / cacheResponse that
+    `NutsModel/C18/RCache.lean` mirrors, statement by statement (regenerated; an edit of caching.go flips this) -/
+theorem fact_cache_flow :
+    Facts.C18.cacheFlow_get = ["call h.mux.Lock()", "call h.removeExpiredEntries()", "entries := h.entriesByURL[httpRequest.URL.String()]", "range entries",
+      "if entry.requestMethod == httpRequest.Method && entry.requestRawQuery == httpRequest.URL.RawQuery", "return &<*ast.CompositeLit>", "return nil"] ∧
+    Facts.C18.cacheFlow_insert = ["if len(entry.responseData) > h.maxBytes", "return ", "call h.mux.Lock()",
+      "for h.currentSizeBytes + len(entry.responseData) >= h.maxBytes", "_ = h.pop()", "if h.head == nil", "h.head = entry",
+      "for current.next != nil && current.next.expirationTime.Before(entry.expirationTime)", "current = current.next",
+      "if current == h.head", "h.head = entry", "entry.next = current.next", "current.next = entry",
+      "h.entriesByURL[entry.requestURL.String()] = append(h.entriesByURL[entry.requestURL.String()], entry)",
+      "h.currentSizeBytes += len(entry.responseData)"] ∧
+    Facts.C18.cacheFlow_removeExpiredEntries = ["for current != nil", "if current.expirationTime.Before(time.Now())", "current = h.pop()", "break"] ∧
+    Facts.C18.cacheFlow_pop = ["if h.head == nil", "return nil", "requestURL := h.head.requestURL.String()", "entries := h.entriesByURL[requestURL]",
+      "range entries", "if entry == h.head", "h.entriesByURL[requestURL] = append(entries[:i], entries[i + 1:])",
+      "if len(h.entriesByURL[requestURL]) == 0", "call delete(h.entriesByURL, requestURL)", "break",
+      "h.currentSizeBytes -= len(h.head.responseData)", "h.head = h.head.next", "return h.head"] ∧
+    Facts.C18.cacheFlow_RoundTrip = ["if httpRequest.Method == http.MethodGet", "if response != nil", "response := r.cache.get(httpRequest)",
+      "return response, nil", "httpResponse, err := r.wrappedTransport.RoundTrip(httpRequest)", "if err != nil", "return nil, err",
+      "err = r.cacheResponse(httpRequest, httpResponse)", "if err != nil", "return nil, err", "return httpResponse, nil"] ∧
+    Facts.C18.cacheFlow_cacheResponse = ["if httpRequest.Method != http.MethodGet", "return nil",
+      "reasons, expirationTime, err := cachecontrol.CachableResponse(httpRequest, httpResponse, <*ast.CompositeLit>)", "if err != nil", "return nil",
+      "maxExpirationTime := time.Now().Add(maxCacheTime)", "if expirationTime.After(maxExpirationTime)", "expirationTime = maxExpirationTime",
+      "if len(reasons) > 0 || expirationTime.IsZero()", "return nil", "responseBytes, err := io.ReadAll(httpResponse.Body)", "if err != nil",
+      "return fmt.Errorf(\"error while reading response body for caching: %w\", err)", "call r.cache.insert(&<*ast.CompositeLit>)",
+      "httpResponse.Body = io.NopCloser(bytes.NewReader(responseBytes))", "return nil"] ∧
+    maxCacheMinutes Facts.C18.maxCacheTimeExpr = some 60 := by decide
+
+/-- **Invariant of every reachable cache state** (any capacity, any sequence of lookups, inserts, pops and round trips
+    that return): every entry of the expiry list is in the URL index; the expiry list holds AT MOST ONE entry (the code
+    as written replaces the head on every insert); pointer identities are distinct; `currentSizeBytes` is exactly the
+    number of body bytes the index holds; and a non-empty cache stays strictly below its byte limit. -/
+theorem rcache_invariant (maxBytes : Int) (ops : List COp) (c : RCache) (h : (RCache.new maxBytes).run ops = some c) :
+    (∀ e ∈ c.list, e ∈ c.all) ∧ c.list.length ≤ 1 ∧ (c.all.map (·.id)).Nodup ∧ c.size = sumSizes c.all ∧
+    (c.all = [] ∨ c.size < c.maxBytes) ∧ c.maxBytes = maxBytes := by
+  obtain ⟨i, m, _⟩ := run_inv ops _ c (new_inv maxBytes) h
+  exact ⟨i.listed, i.short, i.nodup, i.acct, i.cap, m⟩
+
+/-- **A cache hit is the entry of exactly this request**: same URL string, same method, same raw query — in every state. -/
+theorem rcache_hit_sound (c : RCache) (now : Int) (k m q : Bytes) (e : CEntry) (h : (c.get now k m q).2 = some e) :
+    e.key = k ∧ e.method = m ∧ e.query = q ∧ e ∈ (c.get now k m q).1.all :=
+  get_hit c now k m q e h
+
+/-- composed with the injectivity of the index: an entry stored for URL `v` is never the answer for another URL `u`
+    (other scheme, user-info, host, port, path, query or fragment), through any history of the cache -/
+theorem rcache_hit_same_url (c : RCache) (now : Int) (u v : CUrl) (hu : u.wf = true) (hv : v.wf = true) (m q : Bytes) (e : CEntry)
+    (hstored : e.key = cacheKey v) (h : (c.get now (cacheKey u) m q).2 = some e) : u = v :=
+  cache_key_injective u v hu hv ((get_hit c now _ m q e h).1.symm.trans hstored)
+
+/-- **Negative result, established on the real code by the harness**: an entry that is displaced from the expiry list
+    by a later insert (and was not evicted to make room) is answered from the cache FOR EVER — at every later time
+    `now`, after any further operations: expiry (`max-age`, `maxCacheTime`) no longer applies to it. -/
+theorem rcache_displaced_entry_outlives_expiry (maxBytes : Int) (ops ops' : List COp) (c c2 c3 : RCache) (hd : CEntry)
+    (k m q : Bytes) (size : Nat) (exp : Int)
+    (hreach : (RCache.new maxBytes).run ops = some c) (hlisted : hd ∈ c.list) (hfits : (size : Int) ≤ c.maxBytes)
+    (hins : c.insert k m q size exp = .ok c2) (hstill : hd ∈ c2.all) (hlater : c2.run ops' = some c3) (now : Int) :
+    hd ∉ c3.list ∧ ∃ e', (c3.get now hd.key hd.method hd.query).2 = some e' := by
+  obtain ⟨i, _, _⟩ := run_inv ops _ c (new_inv maxBytes) hreach
+  obtain ⟨i2, _, _, disp⟩ := insert_inv c c2 i k m q size exp hins
+  have hnl : hd ∉ c2.list := disp hd hlisted (i.listed hd hlisted) hfits hstill
+  obtain ⟨i3, _, k3⟩ := run_inv ops' c2 c3 i2 hlater
+  obtain ⟨a, b⟩ := k3 hd hstill hnl
+  exact ⟨b, get_finds c3 now hd ((get_rel c3 i3 now hd.key hd.method hd.query).keep hd a b)⟩
+
+/-- non-vacuity + the witness replayed on the real cache (harness case `hc-fixed` 1): an entry that expired 30 minutes
+    ago is still answered after another URL was stored -/
+example :
+    let k1 : Bytes := [97]; let k2 : Bytes := [98]
+    ∃ c c2, (RCache.new 100).run [.insert k1 sGET [] 8 (-30000)] = some c ∧ c.insert k2 sGET [] 8 90000 = .ok c2 ∧
+      ((c2.get 3 k1 sGET []).2.map (·.exp)) = some (-30000) ∧ c2.list.map (·.id) = [1] := by
+  refine ⟨_, _, rfl, rfl, ?_, ?_⟩ <;> decide
+
+/-- a response body of exactly the cache's size makes `insert` spin for ever in its make-room loop (the expiry list is
+    empty, `pop` changes nothing): the call never returns, with the cache's mutex held -/
+theorem rcache_insert_hang_witness (n : Nat) (k m q : Bytes) (t : Int) : (RCache.new n).insert k m q n t = .err "hang" :=
+  hang_exact_fit n k m q t
+
 end Nuts.C18.Props
